@@ -153,6 +153,18 @@ func c17Exercise(c C17Case, rec *Recorder) {
 				rec.Eval(1)
 			}
 		}
+		// degenerate but constructible *http.Request values: no header map, no URL, empty method
+		h := m.Wrap(noopHandler)
+		for _, hr := range []*http.Request{
+			{Method: "GET"}, {Method: "OPTIONS"}, {Method: "", Header: http.Header{"Origin": {"https://example.com"}}},
+			{Method: "OPTIONS", Header: http.Header{"Origin": nil, "Access-Control-Request-Method": nil}},
+			{Method: "OPTIONS", Header: http.Header{"Origin": {}, "Access-Control-Request-Method": {}, "Access-Control-Request-Headers": {}, "Access-Control-Request-Private-Network": {}}},
+		} {
+			h.ServeHTTP(NewRec(nil), hr)
+			if rec != nil {
+				rec.Eval(1)
+			}
+		}
 	}
 	// arbitrary Config through every entry point
 	m, err := cors.NewMiddleware(c.Junk.Cors())
@@ -215,7 +227,7 @@ func c17Check(c C17Case, rec *Recorder) *Disc {
 func TestC17(t *testing.T) {
 	Prop[C17Case]{ID: "C17", Gen: c17Gen, Check: c17Check,
 		Rule: "generator: Config values whose lists mix plausible entries with hostile strings (recombinations of hostile scheme/separator/host/port/tail constants: empty, lone [, *, *., 64/65-byte schemes, 253/254-byte hosts, 63/64-byte labels, ports :0 :65536 :100000 :* :*1, NUL/0x80/0xFF bytes; random bytes; 1 B - 64 KiB names) and full-range integers, " +
-			"through NewMiddleware, Reconfigure (zero value and configured), Config, Reconfigure(Config()), cfgerrors.All (iterated to the end and with a consumer that stops at each position) and every Error(); plus 2-10 arbitrary requests (incl. hostile Origin values, 1 MiB values, multi/zero-valued fields) under the junk configuration if accepted and under a valid configuration, both debug modes. " +
+			"through NewMiddleware, Reconfigure (zero value and configured), Config, Reconfigure(Config()), cfgerrors.All (iterated to the end and with a consumer that stops at each position) and every Error(); plus 2-10 arbitrary requests (incl. hostile Origin values, 1 MiB values, multi/zero-valued fields) and five degenerate *http.Request values (nil header map, nil URL, empty method, nil and empty value lists) under the junk configuration if accepted and under a valid configuration, both debug modes. " +
 			"Oracle: no panic anywhere. non-trivial = Config with a syntactically plausible entry in each of Origins/Methods/RequestHeaders, or a request whose Origin contains '://'; distinct by input.",
 		Assumptions: []string{"errors are not violations; only panics (and runtime fatal errors, which kill the process and are reported by the driver) are"}}.Run(t)
 }
